@@ -38,6 +38,9 @@ def gen(rng, n, mode):
     base = rng.choice([0.0, math.pi, -math.pi], size=k) if mode != "equal" else np.zeros(k)
     interior = base + sgn * dist
     ends = [float(rng.choice([0.0, math.pi / 2, -math.pi / 2, math.pi])) if rng.random() < 0.4 else float(rng.uniform(-math.pi, math.pi)) for _ in range(2)]
+    for i in range(2):        # "arbitrary end phases": also close to, but not at, the special values (1e-10 .. 1e-4 away)
+        if rng.random() < 0.25:
+            ends[i] = float(rng.choice([0.0, math.pi / 2, -math.pi / 2, math.pi, -math.pi])) + float(rng.choice([-1, 1])) * 10.0 ** float(rng.uniform(-10, -4))
     return [ends[0]] + [float(x) for x in interior] + [ends[1]]
 
 
